@@ -191,3 +191,24 @@ func powBig(y *big.Float, k int) *big.Float {
 	}
 	return res
 }
+
+// R8Neighbours returns the two order statistics between which the type-8
+// quantile at p interpolates, and the exact interpolation fraction. ok is
+// false at the ends (p outside (0,1), or h outside [1, n)).
+func R8Neighbours(xs []float64, p float64) (lo, hi float64, frac *big.Rat, ok bool) {
+	n := len(xs)
+	if n == 0 || !(p > 0 && p < 1) {
+		return 0, 0, nil, false
+	}
+	s := append([]float64(nil), xs...)
+	sort.Float64s(s)
+	third := big.NewRat(1, 3)
+	h := new(big.Rat).Add(ratInt(n), third)
+	h.Mul(h, Rat(p)).Add(h, third)
+	fl := new(big.Int).Quo(h.Num(), h.Denom())
+	if !fl.IsInt64() || fl.Int64() >= int64(n) || fl.Int64() < 1 {
+		return 0, 0, nil, false
+	}
+	k := int(fl.Int64())
+	return s[k-1], s[k], new(big.Rat).Sub(h, new(big.Rat).SetInt(fl)), true
+}
